@@ -53,6 +53,10 @@ type C18Case struct {
 	// Pad: the request (handler side) / reply (client side) frame itself carries a string of this many bytes, so that
 	// the frame is larger than the reader's buffer and its tail shares a segment with the bytes that follow it
 	Pad int `json:"pad,omitempty"`
+	// LateMS (client side): the upgrade reply is awaited under a context whose deadline lies LateMS ms ahead and arrives
+	// at once; the raw reads then run under a context WITHOUT deadline, and the peer sends everything after its first
+	// segment only when that deadline has passed. The stream does not end where an earlier operation's deadline lay.
+	LateMS int `json:"late_ms,omitempty"`
 }
 
 // checkReads runs the cursor model over the results; the last result is the drain.
@@ -315,7 +319,10 @@ func execC18Client(c C18Case, bound time.Duration) (bool, error) {
 			stream = stream[len(reply)+1:]
 			waitFor(func(b []byte) bool { return len(b)-(bytes.IndexByte(b, 0)+1) >= len(c.Back) })
 		}
-		for _, seg := range Segments(stream, c.Cuts) {
+		for si, seg := range Segments(stream, c.Cuts) {
+			if c.LateMS > 0 && si == 1 {
+				time.Sleep(time.Duration(c.LateMS+40) * time.Millisecond)
+			}
 			srv.SetWriteDeadline(time.Now().Add(bound))
 			if _, err := srv.Write(seg); err != nil {
 				break
@@ -331,12 +338,32 @@ func execC18Client(c C18Case, bound time.Duration) (bool, error) {
 	}()
 	ctx, cancel := context.WithTimeout(context.Background(), bound)
 	defer cancel()
+	t0 := time.Now()
+	if c.LateMS > 0 {
+		cancel()
+		ctx, cancel = context.WithTimeout(context.Background(), time.Duration(c.LateMS)*time.Millisecond)
+		defer cancel()
+	}
 	recv, err := cli.Upgrade(ctx, "x.y.Up", map[string]int{"a": 1})
 	if err != nil {
+		if c.LateMS > 0 && isTimeoutErr(err) {
+			return false, nil // the machine was too slow for the short deadline: the case says nothing
+		}
 		return false, fmt.Errorf("client side: Upgrade failed: %v", err)
 	}
 	var out json.RawMessage
 	fl, rwc, err := recv(ctx, &out)
+	if c.LateMS > 0 {
+		if err != nil && isTimeoutErr(err) {
+			return false, nil
+		}
+		// from here on: a context without deadline (the harness cancels it if nothing happens within the bound)
+		ctx2, cancel2 := context.WithCancel(context.Background())
+		defer cancel2()
+		tm := time.AfterFunc(bound, cancel2)
+		defer tm.Stop()
+		ctx = ctx2
+	}
 	if err != nil || rwc == nil {
 		return false, fmt.Errorf("client side: the upgrade reply was not received: flags %#x, conn %v, err %v", fl, rwc, err)
 	}
@@ -403,7 +430,10 @@ func execC18Client(c C18Case, bound time.Duration) (bool, error) {
 		n, e := rwc.Read(ctx, buf)
 		drain.Data = append(drain.Data, buf[:n]...)
 		if e != nil {
-			if isTimeoutErr(e) {
+			if c.LateMS > 0 && isTimeoutErr(e) && ctx.Err() == nil {
+				return false, fmt.Errorf("client side: a raw Read under a context without deadline failed with %q, %v after the upgrade was sent under a context with a %d ms deadline (a deadline armed for an earlier, completed operation is still in force); %d bytes were delivered", e, time.Since(t0).Round(time.Millisecond), c.LateMS, len(drain.Data))
+			}
+			if isTimeoutErr(e) || ctx.Err() != nil {
 				return false, fmt.Errorf("client side: draining the upgraded connection hung for %v after %d bytes", bound, len(drain.Data))
 			}
 			break
@@ -423,6 +453,9 @@ func execC18Client(c C18Case, bound time.Duration) (bool, error) {
 	}
 	d, mixed := checkReads(c.Tail, c.Ops, res)
 	if d != "" {
+		if c.LateMS > 0 {
+			return mixed, fmt.Errorf("client side (upgrade reply awaited under a context with a %d ms deadline, raw reads under a context without deadline, the peer's later bytes sent after that deadline): %s", c.LateMS, d)
+		}
 		if c.DropConn {
 			return mixed, fmt.Errorf("client side (only the object returned by Upgrade is still referenced, two garbage collections later): %s", d)
 		}
@@ -539,6 +572,11 @@ func genC18(t *rapid.T) C18Case {
 	if c.Side == "client" && !c.Hangup && len(c.Back) > 0 && len(c.Tail) > 0 && rapid.IntRange(0, 1).Draw(t, "duplex") == 0 {
 		c.Duplex = true
 	}
+	if c.Side == "client" && !c.Hangup && !c.Duplex && !huge && len(c.Tail) > 8 && rapid.IntRange(0, 11).Draw(t, "late") == 0 {
+		c.LateMS = 60
+		c.Pad = 0
+		c.Cuts = []int{33 + rapid.IntRange(0, 6).Draw(t, "latecut")}
+	}
 	return c
 }
 
@@ -572,6 +610,9 @@ func checkC18(c C18Case, st *Stats) error {
 	}
 	if c.Duplex {
 		labels = append(labels, "raw-write-while-raw-read-waits")
+	}
+	if c.LateMS > 0 {
+		labels = append(labels, "stream-continues-after-an-earlier-deadline")
 	}
 	st.Case(HashOf(c), mixed && len(c.Tail) > 0 && (coalesced || len(c.Cuts) > 0 && c.Cuts[0] > 64), func() interface{} { return c }, labels...)
 	return err
@@ -621,6 +662,11 @@ func TestC18Enum(t *testing.T) {
 	}
 	for _, s := range seqs {
 		cases = append(cases, C18Case{Side: "client", Transport: "unix", Tail: tail, Cuts: []int{9}, Ops: s, DropConn: true})
+	}
+	for _, tr := range []string{"pipe", "unix"} {
+		for _, s := range seqs[:12] {
+			cases = append(cases, C18Case{Side: "client", Transport: tr, Tail: tail, Cuts: []int{36}, Ops: s, LateMS: 60})
+		}
 	}
 	long := append(append([]byte(nil), tail...), bytes.Repeat([]byte("0123456789abcdef"), 1024)...) // beyond the read buffer: part of it is still in the kernel
 	for _, cuts := range [][]int{nil, {4096}} {
